@@ -28,7 +28,8 @@ func init() {
 
 // ---------------------------------------------------------------- C04
 
-var smlNames = []string{"", "name", "x.", "a<b", "n/1", "Zz.9", "a\"q", "é日本", "Msg[1]", "a>b", "q?", "S", "Sx1", "F1", "e", "Yield%", "a%%b", "%s", "50%d", "%!v", "a\\b", "{x}", "`q`", "$1", "\u017f1f1", "\u017f6F11", "\u017ftatus", "\u212a1", "h\u2192e"}
+var smlNames = []string{"", "name", "x.", "a<b", "n/1", "Zz.9", "a\"q", "é日本", "Msg[1]", "a>b", "q?", "S", "Sx1", "F1", "e", "Yield%", "a%%b", "%s", "50%d", "%!v", "a\\b", "{x}", "`q`", "$1", "\u017f1f1", "\u017f6F11", "\u017ftatus", "\u212a1", "h\u2192e",
+	"\ufeffReport", "Report\ufeff", "Lot\ufeffReport", "\ufeff", "a\u200bb", "soft\u00adhyphen", "\u2060x", "x\u180e", "\u200e\u200f", "a\u034fb"}
 
 // expressible: a random message that SML can express (ellipses numbered in order of appearance,
 // a name the header lexer reads back as one name, W only on odd functions)
@@ -149,6 +150,23 @@ func driverPP(c *Ctx) {
 			m := ast.NewDataMessage("longrun", 1+g.pick(100), 1, 1, "H->E", ast.NewListNode(ast.NewASCIINode(lit), ast.NewUintNode(1, 7), ast.NewASCIINode(run(256)+"\n")))
 			c.emit(i, ppEvent(m, "api"))
 			c.count("pp.longrun")
+			continue
+		}
+		if i%32 == 9 {
+			// item trees nested deeper than any fixed table or guard would allow for: 63 .. 72 lists around a leaf, a sibling
+			// somewhere on the way down
+			d := []int{63, 64, 65, 66, 67, 72}[g.pick(6)]
+			var it ast.ItemNode = []ast.ItemNode{ast.NewUintNode(1, 7), ast.NewASCIINode("deep"), ast.NewListNode(), ast.NewUintNode(2, "bottom1")}[g.pick(4)]
+			sib := g.pick(d)
+			for k := 0; k < d; k++ {
+				if k == sib {
+					it = ast.NewListNode(it, ast.NewBooleanNode(true))
+				} else {
+					it = ast.NewListNode(it)
+				}
+			}
+			c.emit(i, ppEvent(ast.NewDataMessage("deep", 1+g.pick(100), 1, 1, "H->E", it), "api"))
+			c.count("pp.deep")
 			continue
 		}
 		if i%4 != 3 {
@@ -377,6 +395,16 @@ func driverSizes(c *Ctx) {
 		for _, sz := range []string{"[99999999999999999999]", "[0..99999999999999999999]", "[99999999999999999999..]", "[9223372036854775807..9223372036854775808]",
 			"[9223372036854775808..9223372036854775807]", "[18446744073709551616..1]", "[..18446744073709551616]", "[4294967296]", "[2147483648..]", "[007]", "[1..1]", "[2..1]", "[010]", "[08]", "[001]", "[0010..011]", "[..010]", "[09..]", "[00]"} {
 			emitText(fmt.Sprintf("S1F1 W H->E\n<%s%s %s>\n.", ty, sz, v), "huge")
+		}
+	}
+	// sized lists whose children carry repeat markers or variables somewhere below (child, grandchild), or hold them
+	// directly: the count of the sized list is still what is written between its brackets
+	for _, body := range []string{`<L <A "x"> ...> <A "y">`, `<L <L <U1 v> ...>> <A "y">`, `<L <L <U1 v> ...> ...> <B 1> <B 2>`,
+		`<U1 a> ... <U1 b>`, `v w`, `<L x ...>`, `<A "y"> <L <A[2] s> ...>`, `<L[1] <L[2] <U1 1> ...>>`} {
+		for n := 0; n <= 4; n++ {
+			for _, sz := range []string{fmt.Sprintf("[%d]", n), fmt.Sprintf("[%d..]", n), fmt.Sprintf("[..%d]", n), fmt.Sprintf("[%d..%d]", n, n+1)} {
+				emitText(fmt.Sprintf("S1F1 W H->E\n<L%s %s>\n.", sz, body), "below")
+			}
 		}
 	}
 	// a size violation behind a declaration that spans several lines (in an enclosing list, a sibling, the item itself,
@@ -736,6 +764,14 @@ func driverConcat(c *Ctx) {
 		n := 2 + g.pick(3)
 		var parts []string
 		switch i % 8 {
+		case 4:
+			// repeat markers written with a number of their own in a spelling the printer would not use (leading zeros), in
+			// one message; plain and canonical ones in the messages around it - the names are per message and as written rules say
+			spell := [][]string{{"...[00]", "...[01]"}, {"...[0]", "...[01]"}, {"...[000]", "...[1]"}, {"...", "..."}, {"...[0]", "...[1]"}, {"...[0]", "...[001]"}}
+			for k := 0; k < n; k++ {
+				sp := spell[g.pick(len(spell))]
+				parts = append(parts, fmt.Sprintf("S%dF%d W H->E\n<L <L <U1 va> %s> <L <A vb> %s> >\n.", 1+k, 1+2*g.pick(5), sp[0], sp[1]))
+			}
 		case 5:
 			// the same literal text in items of different types (widths), one per message: what a literal denotes
 			// depends on the item it stands in, not on where the text was seen before
